@@ -3,6 +3,7 @@ CONSTANTS
   KS = 1
   KR = 1
   Mags = {"n", "g"}
+  Saturate = FALSE
 VIEW View
 INVARIANTS C07
 PROPERTIES ClosedAfterSign
